@@ -135,7 +135,7 @@ Proof.
   intros c Hc.
   assert (Hlast : forall t B, length B = 16 * t -> 1 <= t -> t <= c -> bytes B ->
                   wfl (loads_of c false B)).
-  { intros t B HB Ht1 Ht Hb. rewrite (loads_of_dec_last c B t HB Ht).
+  { intros t B HB Ht1 Ht Hb. rewrite (loads_of_dec_last c B t HB Ht1 Ht).
     apply wfl_last; [reflexivity|]. unfold wf_load, blocks16_of. cbn [ld_total ld_data].
     split; [exact Ht1|]. apply (chunks16_of_mul t B HB Hb). }
   induction n as [|n IH]; intros t B HB Ht1 Ht Hb.
